@@ -109,6 +109,18 @@ func (c *Ctx) errorExitStatus(f *ssa.Function, region map[*ssa.BasicBlock]bool) 
 		if len(b.Instrs) == 0 {
 			continue
 		}
+		// a part of the region in which the error was tested again and found
+		// nil is not on the error path
+		if len(c.errVals) > 0 && guardedBy(b, func(cond ssa.Value, truth bool) bool {
+			for v := range c.errVals {
+				if m, isNil := errNilFact(cond, truth, v); m && isNil {
+					return true
+				}
+			}
+			return false
+		}) {
+			continue
+		}
 		fatal := false
 		for _, in := range b.Instrs {
 			if isFatalCall(in) {
@@ -174,6 +186,8 @@ func (c *Ctx) classifyErr(p *errProducer) errVerdict {
 		}
 	}
 	add(p.Val)
+	c.errVals = vals
+	defer func() { c.errVals = nil }()
 	handled := []string{}
 	var checks []*ssa.If
 	propagated := false
